@@ -357,3 +357,74 @@ STRIPPED = r"(\S(.|\n)*\S|\S)?"  # text as XML parsing hands it over: no leading
 
 def stripped_lang() -> Lang:
     return Lang([STRIPPED], mode="fullmatch", name="stripped text")
+
+
+# --------------------------------------------------------------------------- boolean combinations
+def find_witness(langs: List[Lang], predicate) -> Tuple[Optional[str], dict]:
+    """Shortest string whose acceptance vector (one bool per language) satisfies ``predicate``.
+    Returns (witness or None, stats).  Used for: L(G) - L(Accepted) where Accepted is a boolean
+    combination of atomic regular constraints."""
+    alpha = representatives([l.nfa for l in langs])
+    dfas = [DFA(l.nfa, alpha) for l in langs]
+    start = tuple(0 for _ in dfas)
+    seen = {start: None}
+    todo = deque([start])
+    while todo:
+        st = todo.popleft()
+        acc = tuple(d.accepting[q] for d, q in zip(dfas, st))
+        if predicate(acc):
+            w = []
+            cur = st
+            while seen[cur] is not None:
+                prev, c = seen[cur]
+                w.append(c)
+                cur = prev
+            return "".join(reversed(w)), {"alphabet": len(alpha), "dfa_sizes": [d.size for d in dfas], "product_states": len(seen)}
+        for c in alpha:
+            nx = tuple(d.trans[q][c] for d, q in zip(dfas, st))
+            if nx not in seen:
+                seen[nx] = (st, c)
+                todo.append(nx)
+                if len(seen) > 500000:
+                    raise Undecided("product automaton too large")
+    return None, {"alphabet": len(alpha), "dfa_sizes": [d.size for d in dfas], "product_states": len(seen)}
+
+
+def group_lang(pattern: str, index: int) -> Lang:
+    """Language of capture group ``index`` of ``pattern`` (the sub-pattern taken on its own)."""
+    parsed = P.parse(pattern)
+
+    def find(items):
+        for op, arg in items:
+            if op is C.SUBPATTERN:
+                if arg[0] == index:
+                    return arg[3]
+                r = find(arg[3])
+                if r is not None:
+                    return r
+            elif op is C.BRANCH:
+                for alt in arg[1]:
+                    r = find(alt)
+                    if r is not None:
+                        return r
+            elif op in (C.MAX_REPEAT, C.MIN_REPEAT):
+                r = find(arg[2])
+                if r is not None:
+                    return r
+        return None
+
+    sub = find(parsed)
+    if sub is None:
+        raise Undecided(f"group {index} not found in {pattern!r}")
+    lang = Lang([], mode="fullmatch", name=f"group {index} of {pattern}")
+    nfa = NFA()
+    end, _ = _build(nfa, sub, nfa.start, False, False)
+    nfa.accept.add(end)
+    lang.nfa = nfa
+    lang.patterns = [f"<group {index} of {pattern}>"]
+    return lang
+
+
+# Python's own numeric literal syntaxes as accepted by int()/float() on str (finite values only)
+PY_INT = r"[ \t\n\r\f\v]*[+-]?\d+(_\d+)*[ \t\n\r\f\v]*"
+PY_FLOAT = r"[ \t\n\r\f\v]*[+-]?(\d+(_\d+)*\.?(\d+(_\d+)*)?|\.\d+(_\d+)*)([eE][+-]?\d+(_\d+)*)?[ \t\n\r\f\v]*"
